@@ -13,6 +13,7 @@ import (
 	"time"
 
 	"github.com/vx-labs/mqtt-protocol/packet"
+	"github.com/vx-labs/wasp/v4/wasp"
 	"github.com/vx-labs/wasp/v4/wasp/messages"
 )
 
@@ -127,6 +128,15 @@ func msglogChild(args []string) {
 	if k == 0 {
 		cancel()
 	}
+	if phase == "sched" {
+		// the real glue between log and writer (wasp.SchedulePublishes) with a recording writer; the context is
+		// cancelled (graceful stop) inside the k-th hand-over
+		rec := &recWriter{w: w, k: k, cancel: cancel, idle: idle}
+		wasp.SchedulePublishes(1, rec, l)(ctx)
+		l.Close()
+		w.Flush()
+		os.Exit(0)
+	}
 	l.Consume(ctx, "publish_distributor", func(o uint64, p *packet.Publish) error {
 		if count >= k {
 			return errStop // clean stop: the context was cancelled in the previous callback
@@ -150,4 +160,26 @@ func msglogChild(args []string) {
 	l.Close()
 	w.Flush()
 	os.Exit(0)
+}
+
+// recWriter stands where the node's writer stands: Schedule is the hand-over of an offset to the delivery scheduler
+type recWriter struct {
+	w      *bufio.Writer
+	k      int
+	count  int
+	cancel func()
+	idle   *time.Timer
+}
+
+func (r *recWriter) Run(ctx context.Context, log wasp.VerifMessageLog) error { return nil }
+func (r *recWriter) Send(ctx context.Context, recipients []string, qosses []int32, p *packet.Publish) {
+}
+func (r *recWriter) Schedule(ctx context.Context, offset uint64) {
+	r.idle.Reset(600 * time.Millisecond)
+	fmt.Fprintf(r.w, "o %d\n", offset)
+	r.w.Flush()
+	r.count++
+	if r.count == r.k {
+		r.cancel()
+	}
 }
